@@ -161,26 +161,25 @@ Definition schedule (s : loop) (i : Z) (o : obj) (write : bool) (p : opst) (wrap
      [IInvoke (op_cb p) xEPERM (op_sofar p) wrapped]).
 
 (* asyncReadNow / asyncWriteNow: perform the system call and complete, re-arm or fail *)
-Definition io_now (fuel : nat) (s : loop) (i : Z) (write : bool) (p : opst) (wrapped : bool) : loop * list item :=
-  (fix go (fuel : nat) (s : loop) (p : opst) {struct fuel} : loop * list item :=
-     match fuel with
-     | O => (out_of_fuel s, [])
-     | S f =>
-         match lookup i (l_objs s) with
-         | None => (s, [])
-         | Some o =>
-             let '(o1, r) := if write then sys_write o (op_len p - op_sofar p) else sys_read o (op_len p - op_sofar p) in
-             match r with
-             | SGot n =>
-                 let sofar := op_sofar p + n in
-                 if op_all p && negb (sofar =? op_len p) then go f (set_obj s i o1) (set_sofar p sofar)
-                 else (set_obj s i o1, [IInvoke (op_cb p) xNil sofar wrapped])
-             | SEof => (set_obj s i o1, [IInvoke (op_cb p) xEOF (op_sofar p) wrapped])
-             | SWouldBlock => schedule s i o1 write p wrapped
-             | SFail e => (set_obj s i o1, [IInvoke (op_cb p) e (op_sofar p) wrapped])
-             end
-         end
-     end) fuel s p.
+Fixpoint io_now (fuel : nat) (s : loop) (i : Z) (write : bool) (p : opst) (wrapped : bool) {struct fuel} : loop * list item :=
+  match fuel with
+  | O => (out_of_fuel s, [])
+  | S f =>
+      match lookup i (l_objs s) with
+      | None => (s, [])
+      | Some o =>
+          let '(o1, r) := if write then sys_write o (op_len p - op_sofar p) else sys_read o (op_len p - op_sofar p) in
+          match r with
+          | SGot n =>
+              let sofar := op_sofar p + n in
+              if op_all p && negb (sofar =? op_len p) then io_now f (set_obj s i o1) i write (set_sofar p sofar) wrapped
+              else (set_obj s i o1, [IInvoke (op_cb p) xNil sofar wrapped])
+          | SEof => (set_obj s i o1, [IInvoke (op_cb p) xEOF (op_sofar p) wrapped])
+          | SWouldBlock => schedule s i o1 write p wrapped
+          | SFail e => (set_obj s i o1, [IInvoke (op_cb p) e (op_sofar p) wrapped])
+          end
+      end
+  end.
 
 Definition del_interest (s : loop) (i : Z) (o : obj) (write : bool) : loop * obj :=
   if (if write then o_evW o else o_evR o) then
